@@ -35,6 +35,9 @@ type hashScen struct {
 	Gated  bool       `json:"gated"`
 	Reps   int        `json:"reps"`
 	Trace  bool       `json:"trace"`
+	// how the paths of the list are spelled: "" = absolute and clean; rel = relative to the working directory (the root);
+	// dot = absolute with a `.` and an `x/..` element; mixed = alternately absolute and relative
+	Spell string `json:"spell"`
 }
 
 type hashOut struct {
@@ -267,7 +270,22 @@ func (h *hashChild) handle(line []byte) any {
 		}
 		list := make([]string, len(s.List))
 		for i, p := range s.List {
-			list[i] = filepath.Join(h.root, p)
+			abs := filepath.Join(h.root, p)
+			switch {
+			case s.Spell == "rel" || (s.Spell == "mixed" && i%2 == 1):
+				os.Chdir(h.root)
+				list[i] = "./" + p
+				if i%2 == 0 {
+					list[i] = p
+				}
+			case s.Spell == "dot":
+				list[i] = filepath.Dir(abs) + "/./" + filepath.Base(abs) + "/../" + filepath.Base(abs)
+				if fi, err := os.Lstat(abs); err != nil || !fi.IsDir() {
+					list[i] = filepath.Dir(abs) + "/./" + filepath.Base(abs) // x/.. needs x to be a directory
+				}
+			default:
+				list[i] = abs
+			}
 		}
 		vanish := map[string]bool{}
 		for _, p := range s.Vanish {
